@@ -1607,3 +1607,234 @@ def history_case(v, variant, k, N, ops=None, fixed=()):
 
 def _hkinds(variant):
     return {"regex": [("a1", "float"), ("b", "int")], "dtype": [("a1", "float")], "plain": [("a1", "float"), ("b", "int")]}[variant]
+
+
+# ------------------------------------------------------------------ serialisation round trip (C12)
+class _Token:
+    def __init__(self, obj):
+        self.obj = obj
+
+
+def _to_plain(o, json_mode=False):
+    from symx import SymInt as _SI, SymReal as _SR
+
+    if isinstance(o, (type(None), bool, int, float, str, SymBoolT, _SI, _SR)):
+        return o
+    if isinstance(o, (list, tuple)):
+        return [_to_plain(x, json_mode) for x in o]
+    if isinstance(o, dict):
+        return {(str(k) if json_mode and not isinstance(k, str) else k): _to_plain(x, json_mode) for k, x in o.items()}
+    raise TypeError(f"cannot represent an object: {type(o)}")  # yaml RepresenterError / json TypeError
+
+
+class _YamlStub:
+    """contract stub: safe_load(safe_dump(x)) is the identity on the YAML value domain (tuples become lists) and
+    dumping any other leaf raises"""
+
+    @staticmethod
+    def safe_dump(obj, stream=None, sort_keys=False):
+        return _Token(_to_plain(obj))
+
+    @staticmethod
+    def safe_load(tok):
+        import copy as _c
+
+        if isinstance(tok, _Token):
+            return _c.deepcopy(tok.obj)
+        raise TypeError("not a token")
+
+
+class _JsonStub:
+    class decoder:
+        JSONDecodeError = ValueError
+
+    @staticmethod
+    def dumps(obj, sort_keys=False, **kw):
+        return _Token(_to_plain(obj, json_mode=True))
+
+    @staticmethod
+    def loads(tok):
+        import copy as _c
+
+        if isinstance(tok, _Token):
+            return _c.deepcopy(tok.obj)
+        raise ValueError("not a token")
+
+    @staticmethod
+    def load(fp=None):
+        return _JsonStub.loads(fp)
+
+
+def _plain_equal(v, a, b):
+    """structural equality of two serialised dictionaries whose leaves may be symbolic"""
+    from symx import SymInt as _SI, SymReal as _SR
+
+    if isinstance(a, dict) and isinstance(b, dict):
+        if list(a.keys()) != list(b.keys()):
+            return z3.BoolVal(False)
+        return zand(_plain_equal(v, a[k], b[k]) for k in a)
+    if isinstance(a, (list, tuple)) and isinstance(b, (list, tuple)):
+        if len(a) != len(b):
+            return z3.BoolVal(False)
+        return zand(_plain_equal(v, x, y) for x, y in zip(a, b))
+    if isinstance(a, (SymBoolT, _SI, _SR)) or isinstance(b, (SymBoolT, _SI, _SR)):
+        if isinstance(a, SymBoolT) != isinstance(b, SymBoolT) and (isinstance(a, (bool, SymBoolT)) != isinstance(b, (bool, SymBoolT))):
+            return z3.BoolVal(False)
+        r = (a == b)
+        return r.z if isinstance(r, SymBoolT) else z3.BoolVal(bool(r))
+    return z3.BoolVal(type(a) is type(b) and a == b)
+
+
+def roundtrip_case(v, shape, fmt):
+    import pandera.io.pandas_io as IO
+
+    lo, hi = v.int("lo", -1000, 1000), v.int("hi", -1000, 1000)
+    if v.sym:
+        from symx import eng as _eng
+
+        _eng().assume(z3.Int("lo") <= z3.Int("hi"))  # parse_checks refuses ge(lo) & le(hi) with lo > hi by design (documented ValueError)
+    B = {k: v.bool(k) for k in ["nullable", "unique", "coerce", "required", "ordered", "ucn", "amc", "rw", "ina", "idx_unique", "idx_null", "s_coerce"]}
+    nfc = v.choice("nfc_none", [None, 1])
+    nfc = v.int("nfc", 0, 10) if nfc is not None else None
+    strict = v.choice("strict", [False, True, "filter"])
+    rd = v.choice("rd", ["all", "exclude_first", "exclude_last"])
+    c1 = Check.ge(lo, raise_warning=B["rw"], ignore_na=B["ina"], n_failure_cases=nfc)
+    cols = {"a": pa.Column(int, [c1, Check.le(hi)], nullable=B["nullable"], unique=B["unique"], coerce=B["coerce"], required=B["required"],
+                           title="t", description="d")}
+    kw = dict(index=pa.Index(int, unique=B["idx_unique"], nullable=B["idx_null"], name="i"))
+    if shape == "two_same_kind":
+        cols["a"] = pa.Column(int, [Check.ge(lo), Check.ge(hi)], nullable=B["nullable"])
+    elif shape == "df_checks":
+        kw["checks"] = [Check.ge(lo)]
+    elif shape == "multiindex":
+        kw["index"] = pa.MultiIndex([pa.Index(int, name="i0", unique=B["idx_unique"]), pa.Index(str, Check.isin(["x", "y"]), name="i1", nullable=B["idx_null"])])
+    elif shape == "regex":
+        cols = {"^a[0-9]$": pa.Column(float, Check.in_range(lo, lo + 5, B["rw"], B["ina"]), regex=True, nullable=B["nullable"]), "b": pa.Column(str, Check.isin(["x", "y"]))}
+    elif shape == "joint_unique":
+        cols["b"] = pa.Column(float, Check.isin([1.5, 2.5]))
+        kw["unique"] = ["a", "b"]
+    elif shape == "no_index":
+        kw = {}
+    elif shape == "str_checks":
+        cols = {"s": pa.Column(str, [Check.str_matches("^a[0-9]+$"), Check.str_length(1, 5), Check.str_startswith("a")], nullable=B["nullable"], unique=B["unique"])}
+    elif shape != "base":
+        raise KeyError(shape)
+    try:
+        S = pa.DataFrameSchema(cols, strict=strict, ordered=B["ordered"], unique_column_names=B["ucn"], add_missing_columns=B["amc"],
+                               report_duplicates=rd, coerce=B["s_coerce"], title="T", description="D", name="n", **kw)
+    except ValueError:
+        return dict(obs=None, asserts=[], facts=dict(kind="ctor ValueError"))
+    fp0 = fingerprint(S)
+    to_, from_ = (IO.to_yaml, IO.from_yaml) if fmt == "yaml" else (IO.to_json, IO.from_json)
+    saved = (IO.yaml, IO.json)
+    facts = dict(shape=shape, fmt=fmt)
+    asserts = []
+    try:
+        if v.sym:
+            IO.yaml, IO.json = _YamlStub, _JsonStub
+        try:
+            text = to_(S)
+            S2 = from_(text)
+            text2 = to_(S2)
+            eq = bool(S2 == S)
+            n_checks = (sum(len(c.checks) for c in S.columns.values()) + len(S.checks), sum(len(c.checks) for c in S2.columns.values()) + len(S2.checks))
+            if v.sym:
+                same_text = _plain_equal(v, text.obj, text2.obj)
+            else:
+                same_text = text == text2
+            asserts.append(("roundtrip/equal", v.holds(eq)))
+            asserts.append(("roundtrip/same_number_of_checks", v.holds(n_checks[0] == n_checks[1])))
+            asserts.append(("roundtrip/idempotent_text", v.holds(same_text)))
+            facts["kind"] = "ok"
+        except Exception as exc:  # noqa: BLE001 - a schema built from serialisable parts must serialise
+            facts["kind"] = "raised:" + type(exc).__name__
+            facts["_msg"] = str(exc)[:150]
+            asserts.append(("roundtrip/serialisable", v.holds(False)))
+        asserts.append(("roundtrip/schema_unchanged", v.holds(fingerprint(S) == fp0)))
+        if not v.sym and fmt == "yaml" and facts["kind"] == "ok":
+            # concrete complement for the text-level clause (not part of the solver claim): generated script
+            try:
+                script = S.to_script()
+                ns = {}
+                exec(script, ns)  # noqa: S102 - executing pandera's own generated schema script
+                asserts.append(("roundtrip/script_equal", bool(ns["schema"] == S)))
+            except Exception as exc:  # noqa: BLE001
+                facts["_script"] = "raised:" + type(exc).__name__ + ":" + str(exc)[:100]
+                asserts.append(("roundtrip/script_equal", False))
+    finally:
+        IO.yaml, IO.json = saved
+    return dict(obs=None, asserts=asserts, facts=facts)
+
+
+# ------------------------------------------------------------------ an inferred schema accepts its source (C14)
+def infer_case(v, shape, kinds, N, serialise):
+    import builtins
+
+    import pandera.io.pandas_io as IO
+    import pandera.schema_statistics.pandas as SS
+    from symx import SymInt as _SI, SymReal as _SR
+
+    def sym_float(x):
+        # exact for |x| <= 2**53 (claim bound of the symbolic run); beyond that the bit-precise lemma of this check applies
+        if isinstance(x, _SI):
+            return _SR(z3.ToReal(x.z))
+        if isinstance(x, _SR):
+            return x
+        return builtins.float(x)
+
+    if shape == "series":
+        obj = v.series("c0_", kinds[0], N, sname="c0", labels="l")
+        cells = {"c0": v.cells("c0_", kinds[0], N, kinds[0] in ("float", "str"))}
+    else:
+        arr = [(f"c{i}", k) for i, k in enumerate(kinds)]
+        obj = v.frame(arr, N, labels="l")
+        cells = {c: v.cells(f"{c}_", k, N, k in ("float", "str")) for c, k in arr}
+    snap = H.snapshot(obj)
+    saved = (getattr(SS, "float", None), IO.yaml)
+    facts, asserts = dict(shape=shape, kinds=list(kinds)), []
+    try:
+        if v.sym:
+            SS.float = sym_float
+            IO.yaml = _YamlStub
+        try:
+            schema = pa.infer_schema(obj)
+        except Exception as exc:  # noqa: BLE001 - inference must succeed for every frame of supported dtypes
+            facts["infer"] = "raised:" + type(exc).__name__
+            facts["_msg"] = str(exc)[:120]
+            return dict(obs=None, asserts=[("infer/succeeds", v.holds(False))], facts=facts)
+        facts["infer"] = "ok"
+        o = H.outcome(lambda: schema.validate(obj))
+        asserts.append(("infer/accepts_source", v.holds(o["kind"] == "accept")))
+        if o["kind"] == "accept":
+            asserts.append(("infer/returns_source_unchanged", H.equal_to_snapshot(v, o["out"], snap)))
+        # tightness: the inferred bounds are attained by the data
+        comps = {"c0": schema} if shape == "series" else schema.columns
+        for cname, (xs, ns) in cells.items():
+            comp = comps[cname]
+            st = {c.name: c.statistics for c in comp.checks}
+            if "greater_than_or_equal_to" in st:
+                mn, mx = st["greater_than_or_equal_to"]["min_value"], st["less_than_or_equal_to"]["max_value"]
+                mnz, mxz = v.z(mn), v.z(mx)
+                R = lambda t: z3.ToReal(t) if z3.is_int(t) else t  # noqa: E731
+                live = [z3.Not(n) for n in ns]
+                asserts.append((f"infer/min_is_attained/{cname}", v.holds(z3.And(zor(z3.And(l, R(x) == R(mnz)) for x, l in zip(xs, live)),
+                                                                                    zand(z3.Implies(l, R(x) >= R(mnz)) for x, l in zip(xs, live))))))
+                asserts.append((f"infer/max_is_attained/{cname}", v.holds(z3.And(zor(z3.And(l, R(x) == R(mxz)) for x, l in zip(xs, live)),
+                                                                                    zand(z3.Implies(l, R(x) <= R(mxz)) for x, l in zip(xs, live))))))
+        if serialise and shape != "series":
+            try:
+                s2 = IO.from_yaml(IO.to_yaml(schema))
+                o2 = H.outcome(lambda: s2.validate(obj))
+                asserts.append(("infer/survives_serialisation", v.holds(o2["kind"] == "accept")))
+                facts["reloaded"] = o2["kind"]
+            except Exception as exc:  # noqa: BLE001
+                facts["reloaded"] = "raised:" + type(exc).__name__ + ":" + str(exc)[:80]
+                asserts.append(("infer/survives_serialisation", v.holds(False)))
+    finally:
+        if saved[0] is None:
+            if hasattr(SS, "float"):
+                del SS.float
+        else:
+            SS.float = saved[0]
+        IO.yaml = saved[1]
+    return dict(obs=o, asserts=asserts, facts=facts)
